@@ -118,6 +118,11 @@ pub(super) struct State {
     /// Last time the atomic was accessed for a store or rmw operation.
     last_non_load_access: Option<Access>,
 
+    /// Last time each thread loaded from the atomic. Loads are independent of
+    /// each other, so a store must be checked against the last load of every
+    /// thread, not only against the most recent access.
+    last_load_access: [Option<Access>; MAX_THREADS],
+
     /// Currently tracked stored values. This is the `MAX_ATOMIC_HISTORY` most
     /// recent stores to the atomic cell in loom execution order.
     stores: [Store; MAX_ATOMIC_HISTORY],
@@ -413,6 +418,7 @@ impl State {
             is_mutating: false,
             last_access: None,
             last_non_load_access: None,
+            last_load_access: Default::default(),
             stores: Default::default(),
             cnt: 0,
         };
@@ -833,13 +839,29 @@ impl State {
         }
     }
 
+    /// Returns the loads that a store or rmw additionally depends on
+    pub(super) fn dependent_loads(&self, action: Action) -> &[Option<Access>] {
+        match action {
+            Action::Load => &[],
+            _ => &self.last_load_access[..],
+        }
+    }
+
     /// Sets the last dependent access
-    pub(super) fn set_last_access(&mut self, action: Action, path_id: usize, version: &VersionVec) {
+    pub(super) fn set_last_access(
+        &mut self,
+        action: Action,
+        thread: usize,
+        path_id: usize,
+        version: &VersionVec,
+    ) {
         // Always set `last_access`
         Access::set_or_create(&mut self.last_access, path_id, version);
 
         match action {
-            Action::Load => {}
+            Action::Load => {
+                Access::set_or_create(&mut self.last_load_access[thread], path_id, version);
+            }
             _ => {
                 // Stores / RMWs
                 Access::set_or_create(&mut self.last_non_load_access, path_id, version);
